@@ -74,7 +74,9 @@ const (
 type Spec struct {
 	ID int `json:"id"`
 	// --- registry / module state for the denomination the hook computes for this packet
-	Reg          string `json:"reg"`           // none | coin | ext | suicided | dangling
+	Reg          string `json:"reg"`           // none | coin | ext | suicided | dangling | keep (chained: whatever the history left)
+	Chain        bool   `json:"chain"`         // history: start from the state the PREVIOUS case committed through ibc-go core
+	Decoy        bool   `json:"decoy"`         // also register the look-alike IBCDenom(port, SOURCE channel, denom) and give the receiver `amount` of it
 	PairDisabled bool   `json:"pair_disabled"` // ToggleRelay after registration
 	AggDisabled  bool   `json:"agg_disabled"`  // params.EnableAggregate = false
 	SendDisabled bool   `json:"send_disabled"` // bank SendEnabled{hook denom} = false
@@ -131,33 +133,52 @@ type CbObs struct { // OnAcknowledgementPacket / OnTimeoutPacket: stack vs bare
 
 type Obs struct {
 	// oracle values (real library functions on this packet)
-	Decoded    bool        `json:"decoded"`
-	DDenom     string      `json:"d_denom"`
-	DAmount    string      `json:"d_amount"`
-	DSender    string      `json:"d_sender"`
-	DReceiver  string      `json:"d_receiver"`
-	AmountOK   bool        `json:"amount_ok"`
-	AmountVal  string      `json:"amount_val"`
-	RecvOK     bool        `json:"recv_ok"`
-	RecvBytes  string      `json:"recv_bytes"` // hex
-	HookDenom  string      `json:"hook_denom"` // x/aggregate/types.IBCDenom(dest port, dest channel, data.Denom)
-	GotDenom   string      `json:"got_denom"`  // denomination ibc-go's transfer keeper credits for this packet
-	Returning  bool        `json:"returning"`
-	Sha        [][2]string `json:"sha"`      // sha256 table (hex argument, hex value) for every argument the model needs
-	EvmRecv    string      `json:"evm_recv"` // hex, common.BytesToAddress(receiver)
-	Module     string      `json:"module"`   // hex, aggregate module address
-	Blocked    bool        `json:"blocked"`  // bank.BlockedAddr(BytesToAddress(receiver))
-	Contract   string      `json:"contract"` // hex, pair's ERC-20 ("" when none)
-	Alive      bool        `json:"alive"`    // contract account holds code
-	Owner      int         `json:"owner"`    // 1 module, 2 external
-	Pre        Snap        `json:"pre"`
-	Bare       CallObs     `json:"bare"`
-	Stack      CallObs     `json:"stack"`
-	Core       CallObs     `json:"core"`
-	BareCommit string      `json:"bare_commit"` // channeltypes.CommitAcknowledgement(bare ack bytes)
-	AckCb      CbObs       `json:"ack_cb"`
-	ToCb       CbObs       `json:"to_cb"`
-	SetupErr   string      `json:"setup_err,omitempty"`
+	Decoded     bool        `json:"decoded"`
+	DDenom      string      `json:"d_denom"`
+	DAmount     string      `json:"d_amount"`
+	DSender     string      `json:"d_sender"`
+	DReceiver   string      `json:"d_receiver"`
+	AmountOK    bool        `json:"amount_ok"`
+	AmountVal   string      `json:"amount_val"`
+	RecvOK      bool        `json:"recv_ok"`
+	RecvBytes   string      `json:"recv_bytes"` // hex
+	HookDenom   string      `json:"hook_denom"` // x/aggregate/types.IBCDenom(dest port, dest channel, data.Denom)
+	GotDenom    string      `json:"got_denom"`  // denomination ibc-go's transfer keeper credits for this packet
+	Returning   bool        `json:"returning"`
+	Sha         [][2]string `json:"sha"`      // sha256 table (hex argument, hex value) for every argument the model needs
+	EvmRecv     string      `json:"evm_recv"` // hex, common.BytesToAddress(receiver)
+	Module      string      `json:"module"`   // hex, aggregate module address
+	Blocked     bool        `json:"blocked"`  // bank.BlockedAddr(BytesToAddress(receiver))
+	Contract    string      `json:"contract"` // hex, pair's ERC-20 ("" when none)
+	Alive       bool        `json:"alive"`    // contract account holds code
+	Owner       int         `json:"owner"`    // 1 module, 2 external
+	Pre         Snap        `json:"pre"`
+	Bare        CallObs     `json:"bare"`
+	Stack       CallObs     `json:"stack"`
+	Core        CallObs     `json:"core"`
+	BareCommit  string      `json:"bare_commit"`  // channeltypes.CommitAcknowledgement(bare ack bytes)
+	ModsBlocked bool        `json:"mods_blocked"` // bank.BlockedAddr of the aggregate AND of the transfer module account (app.go BlockedAddrs)
+	Hook        CallObs     `json:"hook"`         // Keeper.OnRecvPacket called DIRECTLY on the state before the packet with HookAck
+	HookAck     string      `json:"hook_ack"`     // hex: bytes of the acknowledgement handed to the direct call
+	Tr          TrObs       `json:"tr"`           // what the concrete model of the transfer application needs
+	AckCb       CbObs       `json:"ack_cb"`
+	ToCb        CbObs       `json:"to_cb"`
+	SetupErr    string      `json:"setup_err,omitempty"`
+}
+
+// TrObs: parameters and funds for the model of ibc-go's transfer application (Model/Ics20Transfer.v), bare run
+type TrObs struct {
+	RecvBlocked bool   `json:"recv_blocked"` // bank.BlockedAddr(receiver)
+	RecvEnabled bool   `json:"recv_enabled"` // transfer Params.ReceiveEnabled
+	DenomOK     bool   `json:"denom_ok"`     // transfertypes.ValidatePrefixedDenom(data.Denom) == nil
+	Escrow      string `json:"escrow"`       // hex, transfertypes.GetEscrowAddress(dest port, dest channel)
+	TModule     string `json:"tmodule"`      // hex, transfer module account
+	PreEsc      string `json:"pre_esc"`      // channel escrow's balance of the credited denomination, before
+	PreTmod     string `json:"pre_tmod"`     // transfer module account's
+	PreSupply   string `json:"pre_supply"`   // supply of the credited denomination
+	PostEsc     string `json:"post_esc"`     // ... after the bare run
+	PostTmod    string `json:"post_tmod"`
+	PostSupply  string `json:"post_supply"`
 }
 
 type Result struct {
@@ -178,7 +199,8 @@ type env struct {
 		OnAcknowledgementPacket(sdk.Context, channeltypes.Packet, []byte, sdk.AccAddress) error
 		OnTimeoutPacket(sdk.Context, channeltypes.Packet, sdk.AccAddress) error
 	}
-	bare ibctransfer.IBCModule
+	bare  ibctransfer.IBCModule
+	chain *sdk.Context // history: the state the previous case left (committed by ibc-go core when it ran)
 }
 
 func must(err error) {
@@ -424,8 +446,13 @@ func runSpec(e *env, s Spec) (res Result) {
 			o.SetupErr = fmt.Sprint(r)
 		}
 	}()
-	ctx, _ := e.base.CacheContext()
+	from := e.base
+	if s.Chain && e.chain != nil {
+		from = *e.chain
+	}
+	ctx, _ := from.CacheContext()
 	ctx = ctx.WithEventManager(sdk.NewEventManager())
+	e.chain = &ctx
 	a := e.app
 	dst, src := s.DstChan, s.SrcChan
 	if dst == "" {
@@ -506,8 +533,17 @@ func runSpec(e *env, s Spec) (res Result) {
 		o.Owner = 2
 	case "dangling":
 		a.AggregateKeeper.SetDenomMap(ctx, hookDenom, tmhash.Sum([]byte("no such pair")))
+	case "keep":
+		if p, found := a.AggregateKeeper.GetTokenPair(ctx, a.AggregateKeeper.GetDenomMap(ctx, hookDenom)); found {
+			contract, hasContract = p.GetERC20Contract(), true
+			o.Owner = int(p.ContractOwner)
+			if p.Enabled == s.PairDisabled { // bring the pair to the requested switch position
+				_, err := a.AggregateKeeper.ToggleRelay(ctx, hookDenom)
+				must(err)
+			}
+		}
 	}
-	if s.PairDisabled && hasContract {
+	if s.PairDisabled && hasContract && s.Reg != "keep" {
 		_, err := a.AggregateKeeper.ToggleRelay(ctx, hookDenom)
 		must(err)
 	}
@@ -523,18 +559,30 @@ func runSpec(e *env, s Spec) (res Result) {
 		acc := a.EvmKeeper.GetAccountWithoutBalance(ctx, contract)
 		o.Alive = acc != nil && acc.IsContract()
 	}
-	if s.AggDisabled {
-		p := a.AggregateKeeper.GetParams(ctx)
-		p.EnableAggregate = false
+	if s.Decoy && o.Decoded && len(recv) > 0 && a.AggregateKeeper.GetParams(ctx).EnableAggregate {
+		// a registered denomination that only LOOKS like the packet's voucher (same base denomination, the counterparty's
+		// channel identifier) with enough coins in the receiver's account: the hook must leave it alone
+		if decoy, _ := aggtypes.IBCDenom(port, src, ftpd.Denom); decoy != hookDenom && !a.AggregateKeeper.IsDenomRegistered(ctx, decoy) {
+			e.fund(ctx, mod, decoy, sdk.OneInt())
+			_, err := a.AggregateKeeper.RegisterCoin(ctx, meta(decoy))
+			must(err)
+			must(a.BankKeeper.BurnCoins(ctx, aggtypes.ModuleName, sdk.Coins{sdk.NewCoin(decoy, sdk.OneInt())}))
+			if o.AmountOK && amt(o.AmountVal).IsPositive() && amt(o.AmountVal).BigInt().BitLen() < 250 {
+				e.fund(ctx, recv, decoy, amt(o.AmountVal))
+			}
+		}
+	}
+	if p := a.AggregateKeeper.GetParams(ctx); p.EnableAggregate == s.AggDisabled {
+		p.EnableAggregate = !s.AggDisabled
 		a.AggregateKeeper.SetParams(ctx, p)
 	}
-	if s.SendDisabled {
+	if s.SendDisabled && a.BankKeeper.IsSendEnabledCoin(ctx, sdk.Coin{Denom: hookDenom}) {
 		p := a.BankKeeper.GetParams(ctx)
 		p.SendEnabled = append(p.SendEnabled, &banktypes.SendEnabled{Denom: hookDenom, Enabled: false})
 		a.BankKeeper.SetParams(ctx, p)
 	}
-	if s.RecvDisabled {
-		a.IBCTransferKeeper.SetParams(ctx, transfertypes.NewParams(true, false))
+	if a.IBCTransferKeeper.GetReceiveEnabled(ctx) == s.RecvDisabled {
+		a.IBCTransferKeeper.SetParams(ctx, transfertypes.NewParams(true, !s.RecvDisabled))
 	}
 	if len(recv) > 0 {
 		e.fund(ctx, recv, hookDenom, amt(s.PreVoucher))
@@ -544,6 +592,20 @@ func runSpec(e *env, s Spec) (res Result) {
 		e.fund(ctx, transfertypes.GetEscrowAddress(port, dst), o.GotDenom, amt(s.ChanEscrow))
 	}
 	o.Pre = e.snap(ctx, recv, hookDenom, o.GotDenom, contract, hasContract)
+	escAddr := transfertypes.GetEscrowAddress(port, dst)
+	tmodAddr := a.AccountKeeper.GetModuleAddress(transfertypes.ModuleName)
+	trFunds := func(c sdk.Context) (string, string, string) {
+		if o.GotDenom == "" {
+			return "0", "0", "0"
+		}
+		return a.BankKeeper.GetBalance(c, escAddr, o.GotDenom).Amount.String(), a.BankKeeper.GetBalance(c, tmodAddr, o.GotDenom).Amount.String(),
+			a.BankKeeper.GetSupply(c, o.GotDenom).Amount.String()
+	}
+	o.Tr = TrObs{RecvBlocked: len(recv) > 0 && a.BankKeeper.BlockedAddr(recv), RecvEnabled: a.IBCTransferKeeper.GetReceiveEnabled(ctx),
+		DenomOK: o.Decoded && transfertypes.ValidatePrefixedDenom(ftpd.Denom) == nil, Escrow: hlib.Hex(escAddr), TModule: hlib.Hex(tmodAddr)}
+	o.Tr.PreEsc, o.Tr.PreTmod, o.Tr.PreSupply = trFunds(ctx)
+	o.ModsBlocked = a.BankKeeper.BlockedAddr(mod) && a.BankKeeper.BlockedAddr(tmodAddr)
+	var afterBare func(c sdk.Context)
 
 	call := func(f func(c sdk.Context) ibcexported.Acknowledgement) CallObs {
 		c, _ := ctx.CacheContext()
@@ -554,6 +616,9 @@ func runSpec(e *env, s Spec) (res Result) {
 		if p {
 			co.Class, co.Panic = 2, val
 			co.Post = e.snap(c, recv, hookDenom, o.GotDenom, contract, hasContract)
+			if afterBare != nil {
+				afterBare(c)
+			}
 			return co
 		}
 		co.Status = eventStatus(c)
@@ -564,11 +629,22 @@ func runSpec(e *env, s Spec) (res Result) {
 			co.Ack = hlib.Hex(ack.Acknowledgement())
 		}
 		co.Post = e.snap(c, recv, hookDenom, o.GotDenom, contract, hasContract)
+		if afterBare != nil {
+			afterBare(c)
+		}
 		return co
 	}
 	// (a) the wrapped application alone, (b) the stack as routed by app.go
+	afterBare = func(c sdk.Context) { o.Tr.PostEsc, o.Tr.PostTmod, o.Tr.PostSupply = trFunds(c) }
 	o.Bare = call(func(c sdk.Context) ibcexported.Acknowledgement { return e.bare.OnRecvPacket(c, pkt, e.relayer) })
+	afterBare = nil
 	o.Stack = call(func(c sdk.Context) ibcexported.Acknowledgement { return e.stack.OnRecvPacket(c, pkt, e.relayer) })
+	// (b') the keeper hook called directly on the state BEFORE the packet with an acknowledgement of our own: reaches the
+	// branches the transfer application shields (undecodable data, unparsable / negative amount) and shows that the hook
+	// hands back the acknowledgement it was GIVEN
+	given := channeltypes.NewResultAcknowledgement([]byte{0xc1, 0x60})
+	o.HookAck = hlib.Hex(given.Acknowledgement())
+	o.Hook = call(func(c sdk.Context) ibcexported.Acknowledgement { return a.AggregateKeeper.OnRecvPacket(c, pkt, given) })
 	if o.Bare.Class == 0 && !o.Bare.AckNil {
 		o.BareCommit = hlib.Hex(channeltypes.CommitAcknowledgement(hlib.UnHex(o.Bare.Ack)))
 		o.Sha = append(o.Sha, [2]string{o.Bare.Ack, o.BareCommit})
@@ -598,9 +674,13 @@ func runSpec(e *env, s Spec) (res Result) {
 		o.Core.AckStored, o.Core.AckCommit = found, hlib.Hex(bz)
 		_, o.Core.Receipt = a.IBCKeeper.ChannelKeeper.GetPacketReceipt(c, port, dst, s.Seq)
 		o.Core.Post = e.snap(c, recv, hookDenom, o.GotDenom, contract, hasContract)
+		if o.Core.Class == 0 {
+			e.chain = &c // baseapp commits a successful MsgRecvPacket; a failed / panicking one leaves the state as it was
+		}
 	}
 
 	// (d) the other callbacks: the packet seen as one THIS chain had sent (refund on error ack / timeout)
+	dctx, _ := ctx.CacheContext()
 	cb := func(f func(m interface {
 		OnAcknowledgementPacket(sdk.Context, channeltypes.Packet, []byte, sdk.AccAddress) error
 		OnTimeoutPacket(sdk.Context, channeltypes.Packet, sdk.AccAddress) error
@@ -609,7 +689,7 @@ func runSpec(e *env, s Spec) (res Result) {
 			OnAcknowledgementPacket(sdk.Context, channeltypes.Packet, []byte, sdk.AccAddress) error
 			OnTimeoutPacket(sdk.Context, channeltypes.Packet, sdk.AccAddress) error
 		}) (int, string) {
-			c, _ := ctx.CacheContext()
+			c, _ := dctx.CacheContext()
 			var err error
 			p, _ := hlib.Catch(func() { err = f(m, c) })
 			cl := 0
@@ -636,7 +716,7 @@ func runSpec(e *env, s Spec) (res Result) {
 	}
 	out := channeltypes.NewPacket(outData, s.Seq, port, dst, port, src, clienttypes.NewHeight(1, 1000000), 0)
 	if o.Decoded && o.AmountOK && sdk.ValidateDenom(ftpd.Denom) == nil && amt(o.AmountVal).IsPositive() && amt(o.AmountVal).BigInt().BitLen() < 200 {
-		e.fund(ctx, transfertypes.GetEscrowAddress(port, dst), ftpd.Denom, amt(o.AmountVal))
+		e.fund(dctx, transfertypes.GetEscrowAddress(port, dst), ftpd.Denom, amt(o.AmountVal))
 	}
 	errAck := channeltypes.NewErrorAcknowledgement("verif").Acknowledgement()
 	okAck := channeltypes.NewResultAcknowledgement([]byte{1}).Acknowledgement()
@@ -684,9 +764,18 @@ func main() {
 			specs = append(specs, s)
 		})
 	} else {
+		// the directed corpus runs first on every run (one case per code path / past failure), then the generated cases
+		specs = directed()
+		if len(specs) > *n {
+			specs = specs[:*n]
+		}
 		root := hlib.NewRand(*seed)
-		for i := 0; i < *n; i++ {
-			specs = append(specs, genSpec(root.Fork(uint64(i)), i))
+		for i := len(specs); i < *n; i++ {
+			var prev *Spec
+			if len(specs) > 0 {
+				prev = &specs[len(specs)-1]
+			}
+			specs = append(specs, genSpec(root.Fork(uint64(i)), i, prev))
 		}
 	}
 	w := hlib.NewOut(*out)
